@@ -15,6 +15,36 @@ type Group struct {
 	Validated bool
 	Thorough  bool // only enumerated in the thorough tier
 	Descs     []Desc
+	// unvalidated full-domain groups are generated lazily: base.With(XField, v)
+	// for v in 0..XMax
+	XBase  Desc
+	XField string
+	XMax   uint32
+}
+
+// Len is the number of descriptions of the group.
+func (g *Group) Len() int {
+	if g.XField != "" {
+		return int(g.XMax) + 1
+	}
+	return len(g.Descs)
+}
+
+// Each calls f for every description of the group.
+func (g *Group) Each(f func(i int, d Desc)) {
+	if g.XField != "" {
+		d := g.XBase.Clone()
+		for v := uint32(0); ; v++ {
+			d.F[g.XField] = v
+			f(int(v), d)
+			if v == g.XMax {
+				return
+			}
+		}
+	}
+	for i, d := range g.Descs {
+		f(i, d)
+	}
 }
 
 // Literal alphabet: none of these is an inline constant in any interpretation
@@ -148,10 +178,10 @@ func (r *Row) Groups() []Group {
 				g.Descs = append(g.Descs, r.Base.With(ef.f.Name, v))
 			}
 			gs = append(gs, g)
-			x := Group{Name: "X:" + ef.f.Name, Validated: false, Thorough: ef.f.Bits() > 16}
-			for v := uint32(0); v <= ef.f.Max(); v++ {
-				x.Descs = append(x.Descs, r.Base.With(ef.f.Name, v))
-			}
+			// full domain of a wide immediate: GFX803 in both tiers (<= 16 bits),
+			// the identical GFX9 formats only in the thorough tier
+			x := Group{Name: "X:" + ef.f.Name, Validated: false, Thorough: ef.f.Bits() > 16 || (r.Arch == GFX90A && ef.f.Bits() > 13),
+				XBase: r.Base, XField: ef.f.Name, XMax: ef.f.Max()}
 			gs = append(gs, x)
 			continue
 		}
@@ -192,6 +222,9 @@ func (r *Row) Groups() []Group {
 		sb := r.SDWABase()
 		sl := LayoutOf(r.Arch, "SDWA")
 		for _, f := range sl.Fields {
+			if sdwaSkip(r, f.Name) {
+				continue
+			}
 			g := Group{Name: "S:" + f.Name, Validated: true}
 			for v := uint32(0); v <= f.Max(); v++ {
 				g.Descs = append(g.Descs, sb.With(f.Name, v))
@@ -212,6 +245,9 @@ func (r *Row) Groups() []Group {
 		g := Group{Name: "SP", Validated: true}
 		for i := 0; i < len(sl.Fields); i++ {
 			for j := i + 1; j < len(sl.Fields); j++ {
+				if sdwaSkip(r, sl.Fields[i].Name) || sdwaSkip(r, sl.Fields[j].Name) {
+					continue
+				}
 				for _, a := range sdwaAlpha(sl.Fields[i]) {
 					for _, b := range sdwaAlpha(sl.Fields[j]) {
 						g.Descs = append(g.Descs, sb.With(sl.Fields[i].Name, a).With(sl.Fields[j].Name, b))
@@ -236,6 +272,18 @@ func (r *Row) Groups() []Group {
 		gs = append(gs, g)
 	}
 	return gs
+}
+
+// sdwaSkip: on GFX9 the VOPC SDWA dword has SDST/SD in place of DST_SEL,
+// DST_UNUSED, CLAMP and OMOD; those bits are kept zero (destination = VCC).
+func sdwaSkip(r *Row, field string) bool {
+	if r.Arch == GFX90A && r.Fmt == "VOPC" {
+		switch field {
+		case "dst_sel", "dst_unused", "sdwa_clamp", "sdwa_omod":
+			return true
+		}
+	}
+	return false
 }
 
 func sdwaAlpha(f Field) []uint32 {
